@@ -99,9 +99,17 @@ theorem patched_tree_is_rechecked :
       ["_, err = checker.Check(tree, config)",
        "if err != nil && len(config.Visitors) == 0 { return nil, err }",
        "compiler.PatchOperators(&tree.Node, config)"] ∧
-    Gen.compilePatchBlock =
-      ["if len(config.Visitors) >= 0 { for _, v := range config.Visitors { ast.Walk(&tree.Node, v) } _, err = checker.Check(tree, config) if err != nil { return nil, err } }"] :=
-  ⟨rfl, rfl⟩
+    (Gen.compilePatchBlock =
+      ["if len(config.Visitors) >= 0 { for _, v := range config.Visitors { ast.Walk(&tree.Node, v) } _, err = checker.Check(tree, config) if err != nil { return nil, err } }"] ∨
+     -- the same three statements without the always-true guard (a harmless simplification; the pin used to
+     -- demand the guard itself and raised a false alarm on it: DESIGN.md section 10)
+     Gen.compilePatchBlock =
+      ["for _, v := range config.Visitors { ast.Walk(&tree.Node, v) }", "_, err = checker.Check(tree, config)",
+       "if err != nil { return nil, err }"]) := by
+  refine ⟨rfl, ?_⟩
+  first
+  | exact Or.inl rfl
+  | exact Or.inr rfl
 
 /-! ### traversal theorems for the walker the code implements -/
 
